@@ -331,8 +331,8 @@ private:
         boost::optional<element_t> right_repr =
 	  right.merge_elems(kv.second, left_absval);
         if (!right_repr) {
-	  // this shouldn't happen
-	  CRAB_ERROR("unexpected situation in meet_or_narrowing 1");
+	  // the intersection of the merged classes is empty
+	  return bottom();
 	}
       }
       left_equiv_classes.clear();
@@ -345,8 +345,8 @@ private:
         boost::optional<element_t> left_repr =
 	  left.merge_elems(kv.second, right_absval);
         if (!left_repr) {
-	   // this shouldn't happen
-	  CRAB_ERROR("unexpected situation in meet_or_narrowing 2");
+	  // the intersection of the merged classes is empty
+	  return bottom();
 	}
 	auto &left_ec = left.get_equiv_class(*left_repr);
 	std::shared_ptr<domain_t> left_absval = left_ec.detach_and_get_absval();
